@@ -22,13 +22,13 @@ RULE = (
     "dimension) x state (untrained with fitted data transform, trained 1-25 epochs, optionally fitted before on data of another scale) x construction route (FlowTransform handed to the "
     "flow class, or Aspire.init_flow / fit wiring) x non-default flow options. Oracles: (a) quadrature of exp(log_prob) over the whole "
     "support must be 1 within 5e-3 - for bounded parameters by substitution through the harness's own float64 logit / probit map, "
-    "on a grid of 4001 points (1-D) or 201x201 (2-D) spanning +-12 standard deviations of the mapped training data; (b) log q "
+    "with Gauss-Legendre panels that follow the quantiles of 4000 of the flow's own draws (1-D: ~185 panels x 8 nodes; 2-D: ~70 x 5 per axis) spanning +-12 standard deviations of the mapped training data; (b) log q "
     "returned by sample_and_log_prob equals log_prob at the returned points; (c) every draw lies inside declared finite bounds; "
     "(d) after save -> load, log_prob on the draws is unchanged (1e-6) and (a) still holds; (e) Aspire.sample_flow returns "
     "consistent (x, log q) pairs. Non-trivial = bounded or affine transform active and the flow trained."
 )
 ASSUMPTIONS = [
-    "quadrature: composite Simpson on a uniform grid in the unbounded coordinate; mass outside +-12 sd of the mapped training data is "
+    "quadrature: Gauss-Legendre panels in the unbounded coordinate placed at quantiles of the flow's own draws; mass outside +-12 sd of the mapped training data is "
     "assumed < 1e-3 for the barely trained autoregressive flows used (Gaussian tails)",
     "pointwise agreement tolerance 1e-5 (float64) / 2e-3 (float32), skipping draws closer to a bound than 1e-4 (float32) / 1e-9 "
     "(float64) of the width, where the bounded maps are ill-conditioned",
@@ -125,39 +125,49 @@ def _lim(case):
     return 9.0 if case["bounded"] == "logit" else 3.7
 
 
-def _axis(lo_, a, b, hi_, n_mid, n_side):
-    """nodes and Simpson weights of a piecewise-uniform rule on [lo_, a] u [a, b] u [b, hi_]"""
+def _axis(edges, order):
+    """Gauss-Legendre nodes / weights on consecutive panels"""
+    t, w = np.polynomial.legendre.leggauss(order)
     xs, ws = [], []
-    for (l, r, n) in ((lo_, a, n_side), (a, b, n_mid), (b, hi_, n_side)):
-        if r - l <= 1e-12:
-            continue
-        t = np.linspace(l, r, n)
-        xs.append(t)
-        ws.append(_simpson_weights(n, t[1] - t[0]))
+    for l, r in zip(edges[:-1], edges[1:]):
+        h = 0.5 * (r - l)
+        xs.append(0.5 * (l + r) + h * t)
+        ws.append(h * w)
     return np.concatenate(xs), np.concatenate(ws)
 
 
-def _integral(case, flow, data, span=None):
+def _integral(case, flow, data, draws_y=None):
     """quadrature of exp(log_prob) over the support, by substitution x = x(y).
 
-    The grid is fine around the mapped training data (+-12 sd: where a trained flow puts its mass) and also
-    covers [-12, 12] in the unbounded coordinate (where an untrained, un-whitened flow puts it)."""
+    Panels follow the quantiles of the flow's own draws (fine where it concentrates its mass) and extend over +-12 sd of the
+    mapped training data, [-12, 12], and 1.5x the range of the draws; Gauss-Legendre rule inside each panel."""
     d = case["d"]
     yd = _to_y(case, data)
     m, s = yd.mean(0), yd.std(0)
-    lim = None
-    if case["bounded"]:
-        lim = _lim(case)
-    n_mid, n_side = (4001, 2001) if d == 1 else (161, 61)
+    lim = _lim(case) if case["bounded"] else None
+    n_pan, order = (160, 8) if d == 1 else (48, 5)
     nodes, weights = [], []
     for i in range(d):
-        a, b = m[i] - 12 * s[i], m[i] + 12 * s[i]
-        L, R = min(a, -12.0), max(b, 12.0)
-        if span is not None:  # where the flow itself puts its draws (an untrained, un-whitened flow can be much wider than the data)
-            L, R = min(L, span[0][i]), max(R, span[1][i])
+        L, R = min(m[i] - 12 * s[i], -12.0), max(m[i] + 12 * s[i], 12.0)
+        inner = []
+        if draws_y is not None:
+            col = draws_y[:, i]
+            col = col[np.isfinite(col)]
+            if len(col):
+                rng_ = float(col.max() - col.min())
+                L, R = min(L, col.min() - 0.5 * rng_), max(R, col.max() + 0.5 * rng_)
+                inner = list(np.quantile(col, np.linspace(0, 1, n_pan + 1)))
         if lim is not None:
-            a, b, L, R = max(a, -lim), min(b, lim), max(L, -lim), min(R, lim)
-        t, wt = _axis(L, a, b, R, n_mid, n_side)
+            L, R = max(L, -lim), min(R, lim)
+            inner = [v for v in inner if -lim < v < lim]
+        coarse = list(np.linspace(L, R, 25))
+        edges = np.array(sorted(set([L, R] + inner + coarse)))
+        edges = edges[(edges >= L) & (edges <= R)]
+        keep = [edges[0]]
+        for e in edges[1:]:
+            if e - keep[-1] > 1e-9 * max(1.0, R - L):
+                keep.append(e)
+        t, wt = _axis(np.array(keep), order)
         nodes.append(t)
         weights.append(wt)
     if d == 1:
@@ -168,7 +178,7 @@ def _integral(case, flow, data, span=None):
         y = np.stack([Y0.ravel(), Y1.ravel()], axis=1)
         wq = np.outer(weights[0], weights[1]).ravel()
     x, ljac = _from_y(case, y)
-    lp = env.to_np(flow.log_prob(x)).astype(np.float64)
+    lp = np.concatenate([env.to_np(flow.log_prob(x[k:k + 50000])).astype(np.float64) for k in range(0, len(x), 50000)])
     with np.errstate(all="ignore"):
         dens = np.exp(lp + ljac)
     dens = np.where(np.isfinite(dens), dens, 0.0)
@@ -253,9 +263,7 @@ def run_case(case, ctx):
             f_clip = float(np.mean((np.abs(ys) > lim).any(-1) | ~np.isfinite(ys).all(-1)))
     else:
         ys = xs
-    yf = np.where(np.isfinite(ys), ys, np.nan)
-    rng_ = np.nanmax(yf, axis=0) - np.nanmin(yf, axis=0)
-    span = (np.nanmin(yf, axis=0) - 0.5 * rng_, np.nanmax(yf, axis=0) + 0.5 * rng_)
+    span = ys  # the flow's own draws in the unbounded coordinate steer the quadrature panels
     slack = 5e-3 + 5 * math.sqrt(max(f_clip * (1 - f_clip), 1.0 / n_mc) / n_mc) if f_clip > 0 else 5e-3
     total = _integral(case, flow, data, span)
     if not math.isfinite(total) or abs(total - (1.0 - f_clip)) > slack:
